@@ -96,6 +96,12 @@ check("C01", "translation_validation",
       "TLA+ operational semantics enumerated/simulated by TLC; generated programs compiled and run, output compared with the spec and a CPython rendering",
       "DESIGN.md section 6 C01")
 
+check("C12", "model_checking",
+      "Optimizer.tla states when an unreferenced private definition may be removed without changing a program's trace of prints and raises; TLC checks the guard on all 3-definition programs (4913 states) and refutes the historical result-type guard as a model canary. ErgProg.tla supplies programs in which most definitions are unused: every program of <= 3 (quick) / 4 (thorough) statements over literals, raising and non-raising arithmetic, calls, lists, indexing and `u = print! ..` definitions, plus simulated programs of up to 14 statements. Each is compiled in-process at -o 0, 1, 2 and 3 and executed: stdout and the uncaught exception class must be the same at every level and equal to the specification's (CPython as third voter).",
+      "Trusted: TLC; ErgProg.tla/PyVal.tla (cross-checked against CPython on every program); programs rejected at every level are not judged.",
+      "TLA+ optimiser model checked by TLC + TLA+ reference semantics; generated programs compiled at four optimisation levels and compared",
+      "DESIGN.md section 6 C12")
+
 NOT_APPLICABLE = {
     "C16": "static comparison of opcode/magic tables with external ground truth: no state or behaviour for a TLA+ specification to constrain (DESIGN.md section 7)",
     "C27": "data audit of ~150 declaration files against installed interpreters/typeshed: no behaviour to model in TLA+ (DESIGN.md section 7)",
